@@ -30,5 +30,21 @@ def main(argv):
                             write_evidence=not os.environ.get("GSIM_NO_EVIDENCE"))
 
 
+def _guarded(argv):
+    """An exception of the harness itself must be visible (sys.stderr may already be a simulated stream) and must
+    never look like a verdict: exit status 2, never 1."""
+    try:
+        return main(argv)
+    except SystemExit:
+        raise
+    except BaseException:
+        import traceback
+        sys.__stderr__.write("HARNESS-ERROR (uncaught exception in gsim)\n" + traceback.format_exc())
+        sys.__stdout__.write("HARNESS-ERROR uncaught exception in gsim, see stderr\n")
+        sys.__stdout__.flush()
+        sys.__stderr__.flush()
+        return 2
+
+
 if __name__ == "__main__":
-    sys.exit(main(sys.argv))
+    sys.exit(_guarded(sys.argv))
